@@ -52,6 +52,9 @@ def rand_case(rng, kinds=("hash", "probe", "counter"), memo="False", maxdim=6):
 
 def gen(ctx):
     rng = ctx.rng
+    for _ in range(ctx.n(30, 300)):
+        yield dict(kind="szero", R=rng.randint(2, 5), C=rng.randint(2, 5), T=rng.randint(3, 6), memo=rng.choice(["True", "recursive_lit"]),
+                   nb=rng.choice(["Moore", "von Neumann"]), dyn=int(rng.random() < 0.3), seed=rng.randrange(10 ** 6))
     for (R, C) in ([(66, 2), (2, 70)] if ctx.tier == "quick" else [(66, 2), (2, 70), (65, 3), (3, 64)]):
         for dyn in (0, 1):
             c = dict(kind="ev2", hist=[[[rng.randrange(3) for _ in range(C)] for _ in range(R)]], dtype="int32", scale=1, r=1,
@@ -107,6 +110,8 @@ def gen(ctx):
 
 
 def line(c):
+    if c["kind"] == "szero":
+        return None
     if c["kind"] == "mask":
         return "vn_mask r=%d" % c["r"]
     if c.get("big"):
@@ -129,6 +134,8 @@ def _mask_impl(r):
 
 
 def impl(c):
+    if c["kind"] == "szero":
+        return "n/a"
     if c["kind"] == "mask":
         return "ok " + fmt.mat(_mask_impl(c["r"]))
     if c.get("big"):
@@ -138,6 +145,11 @@ def impl(c):
 
 
 def oracle(c):
+    if c["kind"] == "szero":
+        # memoized evolution of a pure, sign-of-zero-sensitive rule on a float automaton holding +0.0 and -0.0:
+        # every appended row is still the synchronous update (bitwise the unmemoized one)
+        from . import c04
+        return c04.oracle(c)
     if c["kind"] == "mask":
         r = c["r"]
         got = _mask_impl(r)
@@ -165,6 +177,8 @@ def oracle(c):
 
 
 def nontrivial(c, ans):
+    if c["kind"] == "szero":
+        return True
     if c["kind"] == "mask":
         return c["r"] >= 1
     g = c["hist"][-1]
